@@ -56,10 +56,31 @@ def work(job):
     return n, len(names), bad
 
 
+def work_group(group):
+    """one language's codes in one process, in order: results must not depend on which sibling
+    locale was loaded first (the loader shares per-language data between them)"""
+    n = nn = 0
+    bad = []
+    for job in group:
+        a_, b_, c_ = work(job)
+        n += a_
+        nn += b_
+        bad += c_
+    return n, nn, bad
+
+
 def main():
     a = args()
-    jobs = [(c, k, a.tier) for c, k in all_codes()]
-    res = pmap(work, jobs, a.procs, chunk=4)
+    by_lang = {}
+    for c, k in all_codes():
+        by_lang.setdefault(c.split("-")[0], []).append((c, k, a.tier))
+    groups = []
+    for lang, jobs in by_lang.items():
+        regional = [j for j in jobs if j[1] == "locale"]
+        plain = [j for j in jobs if j[1] == "language"]
+        groups.append(regional + plain)  # regional overlays loaded first, then the language
+    res = pmap(work_group, groups, a.procs, chunk=1)
+    jobs = [j for g in groups for j in g]
     failures = []
     total = names = 0
     for n, nn, bad in res:
